@@ -25,7 +25,8 @@ def judge(path):
                 ev = json.loads(line)
             except Exception:
                 continue
-            (_, idx, key, alg, sprov, vprov, route, now, gh, gc, tok_null, gmsg, vrc, vmsg, refvalid, ch, cc, ec_short, toklen, bad_set) = ev
+            (_, idx, key, alg, sprov, vprov, route, now, gh, gc, tok_null, gmsg, vrc, vmsg, refvalid, ch, cc, ec_short, toklen, bad_set) = ev[:20]
+            off_nbf, off_exp = (ev[20], ev[21]) if len(ev) > 21 else (0, 0)
             out["n"] += 1
             P = ["openssl", "gnutls"]
             unsupported = "secp256k1" in key and (sprov == 1 or vprov == 1)
@@ -62,6 +63,12 @@ def judge(path):
                 continue
             exp_h = dict(given_h); exp_h["alg"] = alg; exp_h.setdefault("typ", "JWT")
             exp_c = dict(given_c); exp_c["iat"] = now
+            if off_nbf:
+                exp_c["nbf"] = now + off_nbf
+                cnt("roundtrips_with_nbf_offset")
+            if off_exp:
+                exp_c["exp"] = now + off_exp
+                cnt("roundtrips_with_exp_offset")
             if not strict_eq(got_h, exp_h):
                 diff = [k for k in set(got_h) | set(exp_h) if k not in got_h or k not in exp_h or not strict_eq(got_h[k], exp_h[k])]
                 wit["differing_members"] = diff[:5]
